@@ -26,6 +26,8 @@ pub struct Alphabet {
     pub mine_dispute: bool,
     pub mine_dispute_and_penalty: bool,
     pub externals: Vec<TxName>,
+    /// transactions the node may drop from its mempool (each costs a deviation)
+    pub evictions: Vec<TxName>,
     /// (depth, replacement); each costs a deviation
     pub reorgs: Vec<(u8, Replacement)>,
     pub advances: Vec<u32>,
@@ -49,6 +51,7 @@ impl Alphabet {
             mine_dispute: true,
             mine_dispute_and_penalty: false,
             externals: vec![],
+            evictions: vec![],
             reorgs: vec![],
             advances: vec![],
             bulk_advances: vec![],
@@ -61,7 +64,7 @@ impl Alphabet {
 fn deviation_cost(ev: &Ev, a: &Alphabet) -> u32 {
     match ev {
         Ev::Add { blob, .. } => a.blobs.iter().find(|(b, _)| b == blob).map_or(0, |(_, d)| *d as u32),
-        Ev::Reorg { .. } | Ev::ReorgP { .. } | Ev::Restart | Ev::External(_) => 1,
+        Ev::Reorg { .. } | Ev::ReorgP { .. } | Ev::Restart | Ev::External(_) | Ev::Evict(_) => 1,
         _ => 0,
     }
 }
@@ -210,6 +213,11 @@ impl TowerModel {
             for t in a.externals.iter() {
                 if env.would_accept(&build_tx(*t)) {
                     evs.push(Ev::External(*t));
+                }
+            }
+            for t in a.evictions.iter() {
+                if env.mempool.contains_key(&crate::sim::txid_of(*t)) {
+                    evs.push(Ev::Evict(*t));
                 }
             }
             for (d, how) in a.reorgs.iter() {
